@@ -399,6 +399,11 @@ mutual
     | .remove p t => simp only [execOp]; exact removeOp_v p t cs
     | .farcallList items => simp only [execOp]; exact farcallListOp_v cfg items cs
     | .raise => simp only [execOp]; exact ResV.stop cs _
+    | .attempt body =>
+      simp only [execOp]
+      have hb := execOps_v cfg body cs
+      exact ⟨hb.grows, hb.hoisted, hb.out, hb.pre, hb.lowerPre⟩
+    | .loadBad p => simp only [execOp]; exact ResV.stop cs _
   theorem execOps_v (cfg : Cfg) (ops : List Op) (cs : CS) : ResV cs (execOps cfg ops cs) := by
     match ops with
     | [] => simp only [execOps]; exact ResV.stop cs none
